@@ -114,6 +114,25 @@ func strs(v any) string {
 	}
 	return strings.Join(out, " ")
 }
+// rangeTokens writes a list of ranges; the six private blocks in a row are written as the keyword private_ranges
+func rangeTokens(v any, prefix string) []string {
+	priv := []string{"192.168.0.0/16", "172.16.0.0/12", "10.0.0.0/8", "127.0.0.1/8", "fd00::/8", "::1"}
+	var in []string
+	for _, x := range v.([]any) {
+		in = append(in, x.(string))
+	}
+	var out []string
+	for i := 0; i < len(in); {
+		if i+len(priv) <= len(in) && strings.Join(in[i:i+len(priv)], ",") == strings.Join(priv, ",") {
+			out = append(out, prefix+"private_ranges")
+			i += len(priv)
+			continue
+		}
+		out = append(out, prefix+in[i])
+		i++
+	}
+	return out
+}
 func num(v any) string { return fmt.Sprint(int64(v.(float64))) }
 
 func (w *cfw) matcher(name string, value any) {
@@ -129,6 +148,16 @@ func (w *cfw) matcher(name string, value any) {
 		if a, ok := v["alpn"]; ok {
 			w.line("alpn %s", strs(a))
 		}
+		if r, ok := v["remote_ip"].(map[string]any); ok {
+			var toks []string
+			if x, ok := r["ranges"]; ok {
+				toks = append(toks, rangeTokens(x, "")...)
+			}
+			if x, ok := r["not_ranges"]; ok {
+				toks = append(toks, rangeTokens(x, "!")...)
+			}
+			w.line("remote_ip %s", strings.Join(toks, " "))
+		}
 		w.close()
 	case "http":
 		set := value.([]any)[0].(map[string]any)
@@ -136,7 +165,7 @@ func (w *cfw) matcher(name string, value any) {
 	case "regexp":
 		w.line("regexp %s %s", v["pattern"], num(v["count"]))
 	case "remote_ip", "local_ip":
-		w.line("%s %s", name, strs(v["ranges"]))
+		w.line("%s %s", name, strings.Join(rangeTokens(v["ranges"], ""), " "))
 	case "not":
 		inner := value.([]any)[0].(map[string]any)
 		for n, iv := range inner {
@@ -268,8 +297,19 @@ func (w *cfw) handler(h map[string]any) {
 		for _, u := range ups {
 			um := u.(map[string]any)
 			if mc, ok := um["max_connections"]; ok {
-				w.open("upstream")
-				w.line("dial %s", strs(um["dial"]))
+				dials, _ := um["dial"].([]any)
+				switch {
+				case h["_upform"] == "mixed" && len(dials) >= 2:
+					w.open("upstream " + strs(dials[:1]))
+					w.line("dial %s", strs(dials[1:]))
+				case h["_upform"] == "twodial" && len(dials) >= 2:
+					w.open("upstream")
+					w.line("dial %s", strs(dials[:1]))
+					w.line("dial %s", strs(dials[1:]))
+				default:
+					w.open("upstream")
+					w.line("dial %s", strs(um["dial"]))
+				}
 				w.line("max_connections %s", num(mc))
 				w.close()
 			} else {
